@@ -197,7 +197,7 @@ func init() {
 		}
 		return ebpReadObs(a[0].B)
 	})
-	register("ebp.build", func(a []Val) Val {
+	build := func(a []Val) Val {
 		if len(a) != 2 || a[0].K != 0 || a[1].K != 2 || (a[0].Int() != 0 && a[0].Int() != 1) {
 			return VBad()
 		}
@@ -216,7 +216,9 @@ func init() {
 		cp := make([]byte, len(d))
 		copy(cp, d)
 		return VL(before, VB(d), after, call(func([]Val) Val { return ebpReadObs(cp) }, nil))
-	})
+	}
+	register("ebp.build", build)
+	register("ebp.buildg", build) // model side: decoder with the C05 guard patch
 	register("ebp.time", func(a []Val) Val {
 		if len(a) != 2 || a[0].K != 0 || a[1].K != 0 || (a[0].Int() != 0 && a[0].Int() != 1) {
 			return VBad()
